@@ -283,6 +283,22 @@ fn finalize_entry(fs: &Fs, entry: WorkingEntry, game: Game, emitter: &impl Emitt
     specs.low_res_scale.set_soft_if_missing(DEFAULT_LOW_RES_SCALE);
     specs.has_data.set_soft_if_missing(DEFAULT_HAS_DATA);
 
+    // the texture header stores these in 16 bits
+    for (field, name) in vec![
+        (specs.img_width, "img_width"),
+        (specs.img_height, "img_height"),
+        (specs.img_format, "img_format"),
+    ] {
+        if let SoftOption::Explicit(value) = field {
+            if value.value > u16::MAX as u32 {
+                return Err(emitter.emit(error!(
+                    message("value of '{name}' is too large"),
+                    primary(value, "must not exceed {}", u16::MAX),
+                )));
+            }
+        }
+    }
+
     // Do this now.  For missing images that are also missing metadata,
     // this tends to produce the nicest error message.
     let texture_data = finalize_entry_texture(fs, &mut specs, &entry.path, entry.loaded_texture.as_ref())?;
